@@ -27,6 +27,18 @@ abbrev OpFn := String → Json → Json → Except String Verdict
 def firstFail (checks : List (String × Bool)) : Option String :=
   (checks.find? (fun c => !c.2)).map (·.1)
 
+/-- which clause families a property's check evaluates on the pipeline operations; a failing clause of
+    another family is left to that property's own check -/
+def viewFamilies : List (String × List String) :=
+  [("C12", ["C12", "C01", "C10"]), ("C15", ["C15", "C12", "C01", "C10"]), ("C19", ["C19", "C01", "C02"]), ("C18", ["C18", "C09", "C10"]),
+   ("C09", ["C09"]), ("C14", ["C14", "C05"]), ("C11", ["C11"]), ("C10", ["C10"]), ("C20", ["C20"])]
+
+def viewAccepts (view clause : String) : Bool :=
+  view == "" || clause == "" || clause.startsWith "C20" ||
+  (match viewFamilies.lookup view with
+   | some fams => fams.any (fun f => clause.startsWith f)
+   | none => clause.startsWith view)
+
 def hexDigit (c : Char) : Option Nat :=
   if '0' ≤ c ∧ c ≤ '9' then some (c.toNat - '0'.toNat)
   else if 'a' ≤ c ∧ c ≤ 'f' then some (c.toNat - 'a'.toNat + 10)
